@@ -117,12 +117,35 @@ def correspond(ctx):
 # ---------------------------------------------------------------------------------------------
 # independent closed form (numpy) against Model.run at the solver's own directions
 
+def independent_inputs(sc):
+    """effective permittivity, absorption and thickness of every layer from the scene description alone: dry snow of density rho is ice
+    in air with fractional volume rho / rho_ice (densities a hair above rho_ice count as ice), mixed by Polder-van Santen"""
+    from smrt.permittivity.generic_mixing_formula import polder_van_santen
+    from smrt.permittivity.ice import ice_permittivity_maetzler06
+    from smrt.core.globalconstants import DENSITY_OF_ICE, C_SPEED
+    f = sc["frequency"]
+    k0 = 2 * np.pi * f / C_SPEED
+    eps, ka = [], []
+    for dens, T in zip(sc["density"], sc["temperature"]):
+        ice = complex(*sc["ice_permittivity"]) if sc.get("ice_permittivity") else complex(ice_permittivity_maetzler06(f, T))
+        fv = dens / DENSITY_OF_ICE
+        if 1 < fv < 1.01:
+            fv = 1.0
+        e = complex(polder_van_santen(fv, 1.0, ice))
+        eps.append(e); ka.append(2 * k0 * np.sqrt(e).imag)
+    return np.array(eps, dtype=complex), np.array(ka, dtype=float), np.array(sc["thickness"], dtype=float)
+
+
 def closed_form(sc, res, sp, atm):
-    """Tb(V, H) at every stream angle but the last, from eps_eff / ka / stream angles reported by the run"""
+    """Tb(V, H) at every stream angle but the last, from the scene description (layer inputs computed independently of the run) and the
+    stream angles reported by the run"""
     from smrt.core.fresnel import fresnel_reflection_matrix, fresnel_transmission_matrix
-    eps = np.asarray(res.other_data["effective_permittivity"].values, dtype=complex)
-    ka = np.asarray(res.other_data["ka"].values, dtype=float)
-    d = np.asarray(res.other_data["thickness"].values, dtype=float)
+    if sc.get("emmodel", "nonscattering") == "nonscattering" and len(sc["thickness"]) and not sc.get("reported_inputs"):
+        eps, ka, d = independent_inputs(sc)
+    else:
+        eps = np.asarray(res.other_data["effective_permittivity"].values, dtype=complex)
+        ka = np.asarray(res.other_data["ka"].values, dtype=float)
+        d = np.asarray(res.other_data["thickness"].values, dtype=float)
     T = np.asarray(sc["temperature"], dtype=float) if len(sc["thickness"]) else np.array([0.0])
     if len(sc["thickness"]) == 0:
         T = np.array([0.0])
@@ -186,6 +209,23 @@ def check_closed_form(sc):
     return (dev, "<= 0.01 K") if not dev <= 0.01 else None
 
 
+def check_after_edit(sc, k, factor):
+    """a medium that has been simulated, then had one layer's thickness changed in place, is the medium with the new thickness"""
+    from smrt import make_model, sensor_list
+    sp, atm = scenes.build(sc)
+    med = (atm + sp) if atm is not None else sp
+    m = make_model("nonscattering", "dort", rtsolver_options=dict(n_max_stream=sc["nmax"]))
+    first = m.run(sensor_list.passive(sc["frequency"], [10.]), med)
+    _ = med.layer_thicknesses, med.layer_depths if hasattr(med, "layer_depths") else None
+    ang = stream_angles(first)
+    med.layers[k].thickness = sc["thickness"][k] * factor
+    sc2 = dict(sc, thickness=[t * (factor if j == k else 1.0) for j, t in enumerate(sc["thickness"])])
+    res = m.run(sensor_list.passive(sc["frequency"], list(ang)), med)
+    _, ref = closed_form(sc2, res, sp, atm)
+    dev = float(np.abs(np.asarray(res.data.values) - ref).max())
+    return (dev, "<= 0.01 K") if not dev <= 0.01 else None
+
+
 def check_bare(sc, via_argument=False):
     """a bare substrate under a transparent volume: e*Tsub + r*Tsky"""
     from smrt import make_model, sensor_list
@@ -239,6 +279,25 @@ def oracle(ctx, hints, effort):
             if r:
                 key = "closed-form:" + str((sc.get("substrate") or {}).get("kind"))
                 findings.setdefault(key, Finding(key, f"Tb differs from the incoherent closed form by {r[0]:.3g} K", {"kind": "stack", "scene": sc}, r[0], r[1]))
+            if it in (3, 4) or (effort != "routine" and it % 10 == 3):
+                # a crust a few kg/m3 below the density of ice is still a mixture, not ice
+                j = int(rng.integers(0, len(sc["density"])))
+                sc2 = dict(sc, density=[(round(float(rng.uniform(908.5, 915.5)), 1) if q == j else v) for q, v in enumerate(sc["density"])],
+                           thickness=[(round(float(rng.uniform(0.3, 3.0)), 2) if q == j else v) for q, v in enumerate(sc["thickness"])])
+                evals += 1
+                r = check_closed_form(sc2)
+                if r:
+                    findings.setdefault("closed-form:near-ice-density", Finding("closed-form:near-ice-density", f"a layer of density {sc2['density'][j]} "
+                                        f"kg/m3: Tb differs from the incoherent closed form by {r[0]:.3g} K", {"kind": "stack", "scene": sc2}, r[0], r[1]))
+            if it in (5, 6) or (effort != "routine" and it % 10 == 5):
+                evals += 1
+                k_ = int(rng.integers(0, len(sc["thickness"])))
+                fac = float(rng.choice([0.2, 5.0]))
+                r = check_after_edit(sc, k_, fac)
+                if r:
+                    findings.setdefault("closed-form:after-edit", Finding("closed-form:after-edit", f"simulated, then layer {k_} made {fac} times as thick in "
+                                        f"place, then simulated again: Tb differs from the closed form of the edited medium by {r[0]:.3g} K",
+                                        {"kind": "after-edit", "scene": sc, "k": k_, "factor": fac}, r[0], r[1]))
             if sc.get("substrate") and it % 3 == 0:
                 evals += 1
                 for via in (False, True):
@@ -252,5 +311,8 @@ def oracle(ctx, hints, effort):
 
 
 def replay(inp, rp=None):
+    if inp["kind"] == "after-edit":
+        r = check_after_edit(inp["scene"], inp["k"], inp["factor"])
+        return Finding("?", "closed form after an in-place edit", inp, r[0], r[1]) if r else None
     r = check_closed_form(inp["scene"]) if inp["kind"] == "stack" else check_bare(inp["scene"], inp.get("via_argument", False))
     return Finding("?", "closed form", inp, r[0], r[1]) if r else None
